@@ -15,7 +15,7 @@ from __future__ import annotations
 
 import pandas as pd
 
-CLASSES = ("reduction", "groupby-agg", "merge", "concat", "shuffle", "window", "repartition", "index")
+CLASSES = ("reduction", "groupby-agg", "merge", "concat", "shuffle", "window", "repartition", "index", "astype")
 NUMCOLS = ["a", "c", "d"]
 
 
@@ -265,6 +265,28 @@ class _Gen:
         d["form"] = d["op"] + (":series" if d["series"] else "")
         return d
 
+    # ------------------------------------------------------------------ astype / categorize (meta of dtype conversions)
+    @staticmethod
+    def g_astype(r, known):
+        targets = {"a": ["float64", "Int64", "str", "category", "bool", "int32"], "b": ["category"], "c": ["str", "float32"],
+                   "d": ["int64", "Int64", "str", "category"], "e": ["int64", "boolean", "str", "category"],
+                   "k": ["str"], "n": ["float64", "str"], "m": ["float64", "Int64"], "t": ["str", "datetime64[s]"]}
+        w = r.random()
+        if w < 0.6:
+            cols = r.sample(sorted(targets), r.randint(1, 4))
+            spec = {c: _pick(r, targets[c]) for c in cols}
+            tag = "+".join(sorted({("category" if t == "category" else "nullable" if t in ("Int64", "boolean") else
+                                    "str" if t == "str" else "numpy") for t in spec.values()}))
+            return {"class": "astype", "form": "dict:" + tag, "spec": spec, "target": "frame"}
+        if w < 0.8:
+            c = _pick(r, sorted(targets))
+            t = _pick(r, targets[c])
+            return {"class": "astype", "form": "series:" + ("category" if t == "category" else t), "spec": t, "target": c}
+        if w < 0.9:
+            return {"class": "astype", "form": "categorize", "spec": r.sample(["b", "a", "e"], r.randint(1, 2)), "target": "categorize"}
+        t = _pick(r, ["float64", "str", "category"])
+        return {"class": "astype", "form": "frame:" + t, "spec": t, "target": "num"}
+
     # ------------------------------------------------------------------ Index-valued programs
     @staticmethod
     def g_index(r, known):
@@ -457,6 +479,17 @@ def _a_repartition(d, df, is_dask, other):
 
 def _ident(p):
     return p
+
+
+def _a_astype(d, df, is_dask, other):
+    if d["target"] == "frame":
+        return df.astype(dict(d["spec"]))
+    if d["target"] == "num":
+        return df[NUMCOLS].astype(d["spec"])
+    if d["target"] == "categorize":
+        cols = list(d["spec"])
+        return df.categorize(columns=cols) if is_dask else df.astype({c: "category" for c in cols})
+    return df[d["target"]].astype(d["spec"])
 
 
 def _a_index(d, df, is_dask, other):
